@@ -30,6 +30,7 @@ MESHES = {
     "screen3": lambda: SG.screen(3),
     "torus33": lambda: SG.torus(3, 3),
     "two_tets_face": SG.two_tets_face,
+    "octa+tetra": SG.octa_plus_tetra,
 }
 
 
